@@ -199,10 +199,10 @@ Definition exec (op : N) (args : list ans) (st : dstate) : dstate * ans :=
   | 38 => (st, both (AList [ANum (count_pages m); ANum (count_crawled_pages m); ANum (count_links_x2 m)])
                     (AList [ANum (blen (a_pages a)); ANum (count_if (fun x => snd x) (a_pages a));
                             ANum (s_stubs a)]))
-  | 39 => (st, both (a_tm (metrics m))
+  | 39 => (st, both (AList (g_list (a_tm (metrics m)) ++ [ANum (count_links_x2 m)]))
                     (AList [ANum (s_trie_blocks a - 1); ANum (blen (a_pages a));
                             ANum (count_if (fun x => snd x) (a_pages a));
-                            ANum (s_trie_blocks a - 1 - blen (a_known a))]))
+                            ANum (s_trie_blocks a - 1 - blen (a_known a)); ANum (s_stubs a)]))
   | 46 =>
       (* page degree figures: [indegree; outdegree; degree; weighted indegree; weighted outdegree; weighted degree] *)
       let figs (pl : bytes -> bool -> bool -> bool -> list (bytes * bytes * N)) :=
